@@ -66,6 +66,8 @@ func GenSpec(t *rapid.T) *Spec {
 		s.UserBalance = append(s.UserBalance, uint64(rapid.SampledFrom([]int{0, 50, 5_000, 100_000, 1_000_000, 1_000_000_000}).Draw(t, "userBal")))
 	}
 	s.CommonPool = uint64(rapid.SampledFrom([]int{0, 1, 1000, 1_000_000_000}).Draw(t, "commonPool"))
+	// a genesis produced by dumping a running network carries the fees of its last block
+	s.LastBlockFees = uint64(rapid.SampledFrom([]int{0, 0, 0, 0, 1, 7, 1000}).Draw(t, "lastBlockFees"))
 	s.FeeWeights = [3]uint64{
 		uint64(rapid.IntRange(0, 3).Draw(t, "fwP")), uint64(rapid.IntRange(0, 3).Draw(t, "fwV")), uint64(rapid.IntRange(0, 3).Draw(t, "fwN")),
 	}
